@@ -291,7 +291,7 @@ func (g *sgen) fSamePos() {
 	})
 	for i := 0; i < k; i++ {
 		n := g.modName("s")
-		// pad the name so that the positions agree: the header has the name three times
+		// the body starts on the same line of every file and at the same column
 		g.add(n, head(n)+body+"}\n")
 	}
 }
